@@ -1235,12 +1235,6 @@ def run(tier: str) -> int:
     Impl.shared = impl
     drv = LeanDriver("C10")
 
-    # F10 (fixes/F10-tree-dump-in-handler.diff): on an unrepaired tree celpy's tree_dump raises inside the
-    # `except CELEvalError` arm for a tree that contains `{}`; failing inputs of exactly that class are attributed
-    # to the finding (only if KNOWN_FINDINGS.txt lists it — otherwise they stay violations)
-    ck.classifiers["tree-dump-in-handler"] = lambda c: "pop from empty list" in json.dumps(
-        [c.get("escaped"), c.get("outcome")], default=str)
-
     # ---- corpus: minimised past failures first
     from common import VERIF
     for f in sorted((VERIF / "corpus" / "C10").glob("*.json")):
@@ -1352,9 +1346,7 @@ def run(tier: str) -> int:
             continue
         if "error" in ans:
             raise Infra(f"driver rejected a request: {ans['error']}")
-        in_finding = any(pred({"escaped": obs.get("escaped"), "outcome": obs.get("outcome")})
-                         for pred in ck.classifiers.values())
-        diff = None if in_finding else compare(case, obs, ans)     # inside a finding's class the oracle alone decides
+        diff = compare(case, obs, ans)
         if diff is not None:
             ck.disagree({"case": case, "events": obs.get("events"), "outcome": obs.get("outcome")},
                         {k: ans.get(k) for k in ("res", "evals", "outs")}, {"requests": obs.get("requests")}, diff)
